@@ -9,7 +9,8 @@
       bg     0 | 1                  index of the background (void) material
       arr    flat row-major integer design values handed to the transform
       out    flat row-major values it returned (rounded; dev = deviation from integers in ppb)
-   The call having returned at all is the observation of termination.
+   returned = 1: the call came back (the observation of termination); returned = 0: the harness's watchdog
+   gave up on it (a batch of designs or one eager call) - the property's first clause is violated.
    Verdict = the property's predicate:  out is binary, solid = {out # bg} and void are both unions of
    brush footprints whose in-domain part lies inside the region (BrushFeasible).
    More detailed than the property, hence only "drift:" when it fails: brush centres inside the grid, and
@@ -27,7 +28,8 @@ WellFormed(c) ==
     /\ Len(c.brush) >= 1 /\ \A i \in 1..Len(c.brush) : c.brush[i][1] \in -4..4 /\ c.brush[i][2] \in -4..4
 
 Verdict(c) ==
-    IF ~WellFormed(c) THEN "malformed: record shape"
+    IF c.returned = 0 THEN "termination: the brush loop did not terminate (the call did not return within the watchdog limit)"
+    ELSE IF ~WellFormed(c) THEN "malformed: record shape"
     ELSE LET dm    == << c.dm[1], c.dm[2] >>
              G     == D!Grid(dm)
              B     == { 64 * c.brush[i][1] + c.brush[i][2] : i \in 1..Len(c.brush) }
